@@ -21,11 +21,13 @@ var c01Filters = []string{
 	"url_decode", "inspect", "type",
 }
 
+type c01Key string
+
 type c01Drop struct{ v any }
 
 func (d c01Drop) ToLiquid() any { return d.v }
 
-const c01Receivers = 27
+const c01Receivers = 28
 
 // c01Receiver returns the k-th receiver of the boundary universe (concrete: many filters
 // print their receiver, and printing is native).
@@ -81,13 +83,16 @@ func c01Receiver(k int) any {
 	case 24:
 		return values.NewRange(-1, math.MaxInt64)
 	case 25:
-		n := 7
-		return []any{&n, (*int)(nil), &struct {
+		// typed nil pointers inside containers (a non-nil pointer prints as an address: not predictable)
+		return []any{(*int)(nil), struct {
 			A *int
 			B []any
-		}{nil, []any{nil}}}
+		}{nil, []any{nil, (*string)(nil)}}}
 	case 26:
 		return []byte("a\xffb")
+	case 27:
+		// maps keyed by a named string type
+		return []any{map[c01Key]any{"k": "b"}, map[c01Key]any{"k": "A", "j": nil}, map[c01Key]any{}}
 	default:
 		return []string{"b", "", "a"}
 	}
